@@ -12,6 +12,11 @@ STAT = {"state": 0, "ppid": 1, "pgrp": 2, "session": 3, "tty_nr": 4,
         "nice": 16, "num_threads": 17, "starttime": 19, "vsize": 20, "rss": 21,
         "processor": 36, "delayacct_blkio_ticks": 39}
 
+# first stat column (index after comm) that old / stripped-down kernels may not
+# print: delayacct_blkio_ticks is "since Linux 2.6.18" in proc(5) and absent on
+# the kernels of psutil issue #2455; everything up to `processor` is mandatory.
+STAT_OPTIONAL_FROM = 37
+
 # public API field -> stat field
 STAT_API = {
     ("Process.cpu_times", "user"): "utime",
